@@ -104,8 +104,15 @@ def _iter_spec(rng: random.Random, name: str, maxlen: int = 8) -> dict:
         return {"tool": name, "srcs": [keys_seq(rng, maxlen)], "fns": [], "params": params}
     if name == "iter_sentinel":
         ks = keys_seq(rng, maxlen, 4)
-        kind = rng.choice(["equal", "equal", "absent", "identical", "nan", "touchy", "onesided", "touchy_identical"])
+        kind = rng.choice(["equal", "equal", "absent", "identical", "nan", "touchy", "onesided", "touchy_identical", "none_sentinel"])
         spec = {"tool": name, "srcs": [ks], "fns": ["nullary"], "params": {}}
+        if kind == "none_sentinel":
+            # ``iter(queue.get, None)``: the sentinel is None - compared like any other sentinel (``None == value`` falls
+            # through to the VALUE's own ``__eq__``: a value that considers itself equal to None ends the iteration)
+            spec["raw"] = True
+            spec["srcs"] = [[rng.choice([0, 1, "", ["An", 1], ["L"], ["Eq", "always", 1], ["Eq", "never", 2]]) for _ in ks] + [None]]
+            spec["params"]["sentinel"] = ["none"]
+            return spec
         if kind == "touchy_identical":
             # the callable hands back the very sentinel OBJECT, and that object cannot be compared at all (its ``==`` fails,
             # like the ambiguous truth value of an array): identity settles it before any comparison is attempted
